@@ -42,6 +42,7 @@ def rand_chunks(rng, sizes, p_chunk=0.7):
 def gen_case(rng, i, tier):
     fam = rng.choice(["A", "A", "B", "C", "C", "D", "D"])
     scheds = [chaos.random_scheduler(rng) for _ in range(rng.choice([2, 2, 3]))]
+    lazy_coord = {"ndims": rng.choice([1, 2]), "ones": rng.random() < 0.6} if rng.random() < 0.3 else None
     if fam == "D":
         Kx, Ky = rng.choice([(2, 1), (1, 2), (2, 2), (3, 1), (3, 2)])
         per = rng.random() < 0.5
@@ -57,7 +58,8 @@ def gen_case(rng, i, tier):
         return {"family": "D", "Kx": Kx, "Ky": Ky, "N": N, "periodic": per, "orients": topo.orient_ids(T), "extra": extra,
                 "order": order, "vector": vector, "op": rng.choice(["diff", "interp"] if vector else ["diff", "interp", "min", "max"]),
                 "axis": rng.choice("XY"), "to": rng.choice(["left", "right"]), "rule": rng.choice(gen.RULES),
-                "chunks": rand_chunks(rng, sizes, 0.8), "scheds": scheds, "dseed": rng.getrandbits(31)}
+                "chunks": rand_chunks(rng, sizes, 0.8), "scheds": scheds, "dseed": rng.getrandbits(31),
+                "lazy_coord": None if lazy_coord is None else dict(lazy_coord, dims=["face", "y", "x", "xl", "yl", "xr", "yr"][: 3 if lazy_coord["ndims"] == 2 else 1])}
     layout = gen.random_layout(rng, nax=rng.randint(1, 2), nmin=2, nmax=7, p=0.55, at_least=2)
     axn = [a["name"] for a in layout["axes"]]
     cm = gen.layout_coords(layout)
@@ -94,6 +96,7 @@ def gen_case(rng, i, tier):
     if op == "mw":
         desc["mw_base"] = rng.choice(["diff", "interp"])
     desc["chunks"] = chunks
+    desc["lazy_coord"] = None if lazy_coord is None else dict(lazy_coord, dims=dims[: lazy_coord["ndims"]])
     return desc
 
 
@@ -220,6 +223,23 @@ def run_case(ctx, desc):
         ds, g, data, fn, core_dims, involved = setup_simple(desc)
         opname = desc["op"] + (":" + desc["dask_mode"] if desc["op"] == "ufunc" else "") + (":" + desc["mw_base"] if desc["op"] == "mw" else "")
         shifts = [(desc["pos"][a], desc["to"][a]) for a in desc["opax"]]
+    # inputs may carry a (dask-backed) non-index coordinate whose chunking has nothing to do with the data's
+    lc = desc.get("lazy_coord")
+
+    def with_coord(x, lazy):
+        import xarray as xr
+
+        if not lc:
+            return x
+        cd = [d for d in x.dims if d in lc["dims"]] or list(x.dims[:1])
+        vals = gen.quarter_data(desc["dseed"] + 99, [x.sizes[d] for d in cd])
+        c = xr.DataArray(vals, dims=cd)
+        if lazy:
+            c = c.chunk({d: (1 if lc["ones"] else -1) for d in cd})
+        return x.assign_coords(aux_lazy=c)
+
+    if lc:
+        data = {k: with_coord(v, False) for k, v in data.items()} if isinstance(data, dict) else with_coord(data, False)
     chunked = {d for d, c in chunks.items() if len(c) > 1}
     core_chunked = bool(chunked & set(core_dims))
     refusable = core_chunked and bool(involved & {"inner", "outer"})
@@ -228,7 +248,7 @@ def run_case(ctx, desc):
         # one chunk; the statement does not say whether it should be, so a refusal there is not judged
         refusable = True
     kinds = sorted({("single" if len(c) == 1 else "ones" if max(c) == 1 else "uneven" if len(set(c)) > 1 else "even") for c in chunks.values()})
-    ckey = (fam, opname, shifts, "core-chunked" if core_chunked else "core-whole", bool(chunked - set(core_dims)), kinds,
+    ckey = (fam, opname, shifts, "core-chunked" if core_chunked else "core-whole", bool(chunked - set(core_dims)), kinds, bool(lc),
             sorted({s if isinstance(s, str) else s[0] for s in desc["scheds"]}), refusable)
     ctx.judged(ckey, bool(chunked))
     try:
@@ -237,10 +257,15 @@ def run_case(ctx, desc):
         # a well-posed in-memory call that fails is another property's business; nothing to compare with
         ctx.count("eager_raised_" + type(e).__name__)
         return
+    def lazify(v):
+        base = v.drop_vars("aux_lazy") if lc else v
+        z = base.chunk({d: c for d, c in chunks.items() if d in base.dims})
+        return with_coord(z, True)
+
     if fam == "D" and desc["vector"]:
-        lazy_in = {k: v.chunk({d: c for d, c in chunks.items() if d in v.dims}) for k, v in data.items()}
+        lazy_in = {k: lazify(v) for k, v in data.items()}
     else:
-        lazy_in = data.chunk({d: c for d, c in chunks.items() if d in data.dims})
+        lazy_in = lazify(data)
     cnt = chaos.Count()
     try:
         with cnt:
